@@ -318,8 +318,43 @@ func c13NestedFailure(b *core.B) {
 	}
 }
 
+// c13AfterAFailedExecution: an execution that fails while a break from a helper's block is still
+// on its way to the loop leaves nothing behind for the executions that follow.
+func c13AfterAFailedExecution(b *core.B) {
+	const failing = `<%= for (i) in [1, 2] { %><%= contentOf("missing") { %>x<% break %><% } + 1 %><% } %>`
+	const after = `<%= if (true) { %>shown<% } %>|<%= for (i) in [1, 2, 3] { %>[<%= i %>]<% } %>|<%= cap() { %>c<% } %>`
+	if !b.Begin("after a failed execution: " + failing + " then " + after) {
+		return
+	}
+	b.NonTrivialStr("after-failed-execution")
+	b.Count("execution-after-one-that-failed-with-a-pending-break")
+	var outs []string
+	pan := core.Guard(func() {
+		tf, _ := plush.NewTemplate(failing)
+		ta, _ := plush.NewTemplate(after)
+		for i := 0; i < 6; i++ {
+			if tf != nil {
+				_, _ = tf.Exec(progCtx(nil))
+			}
+			s, err := ta.Exec(progCtx(nil))
+			outs = append(outs, fmt.Sprintf("%q %v", s, err))
+		}
+	})
+	if pan != nil {
+		b.Violate(pan.Sig(), pan.Value)
+		return
+	}
+	for _, o := range outs {
+		if o != `"shown|[1][2][3]|(c)" <nil>` {
+			b.Violate("nondeterministic-output|after-a-failed-execution", fmt.Sprintf("want \"shown|[1][2][3]|(c)\", got %s (all: %v)", o, outs))
+			return
+		}
+	}
+}
+
 func c13Run(b *core.B) {
 	if b.Batch == 0 {
+		c13AfterAFailedExecution(b)
 		c13NestedFailure(b)
 		c13SameNamedTypes(b)
 		c13MadeInTheTemplate(b)
